@@ -161,6 +161,14 @@ impl Report {
         let mut new_violations = 0;
         let mut known_hits = 0;
         let replay_dir = root.join("replays").join(&self.id);
+        // replay files of earlier runs of this tier are stale
+        if let Ok(rd) = std::fs::read_dir(&replay_dir) {
+            for e in rd.flatten() {
+                if e.file_name().to_string_lossy().starts_with(&format!("{}-", self.tier)) {
+                    let _ = std::fs::remove_file(e.path());
+                }
+            }
+        }
         for (i, v) in self.violations.iter().enumerate() {
             let entry = known.iter().find(|k| {
                 k.property == self.id && k.status == "known" && v.signature == k.signature
